@@ -12,7 +12,12 @@ Record interp := {
   i_eq : value -> value -> bool;
   i_cmp : value -> value -> comparison;                (* <field type as Ord>::cmp *)
   i_partial_cmp : value -> value -> option comparison; (* <field type as PartialOrd>::partial_cmp *)
-  i_user : toks -> list value -> value                 (* user function [path] applied to argument values *)
+  i_user : toks -> list value -> value;                (* user function [path] applied to argument values *)
+  i_size_of_self : nat;                                (* C20: ::core::mem::size_of::<Self>() *)
+  i_clone : value -> value;                            (* <field type as Clone>::clone(&v) *)
+  i_clone_from : value -> value -> value;              (* <field type as Clone>::clone_from(&mut dst, &src): the new content of dst *)
+  i_into : value -> value;                             (* ::core::convert::Into::into(v) *)
+  i_default : toks -> value                            (* <ty as ::core::default::Default>::default() *)
 }.
 
 (** what a core::fmt builder is asked to format: a value through its type's
@@ -35,7 +40,9 @@ Inductive event :=
 | EvBuilderEntry (key : string) (a : fmt_arg)
       (* DebugMap::entry(&Educe__RawString(key), value): the key is written verbatim *)
 | EvBuilderFinish                          (* builder.finish() *)
-| EvWriteStr (s : string).                 (* f.write_str(s) *)
+| EvWriteStr (s : string)                  (* f.write_str(s) *)
+| EvClone (v : value)                     (* ::core::clone::Clone::clone(&v) *)
+| EvCloneFrom (dst src : value).          (* ::core::clone::Clone::clone_from(&mut dst, &src) *)
 
 Inductive res :=
 | RVal (v : value)
@@ -229,6 +236,41 @@ Definition fmt_arg_of (st : store) (v : value) : option fmt_arg :=
   | None => None
   end.
 
+(** ** C20: the byte view of a union *)
+Definition bytes_eqb (a b : list nat) : bool :=
+  if list_eq_dec Nat.eq_dec a b then true else false.
+
+(** `::core::mem::size_of::<Self>` (compared by flat spelling) *)
+Definition size_of_self_toks : toks :=
+  [P "::"; I "core"; P "::"; I "mem"; P "::"; I "size_of"; P "::"; P "<"; I "Self"; P ">"].
+
+(** `*const T` *)
+Definition is_const_ptr_ty (ty : toks) : bool :=
+  match ty with
+  | [TPunct "*"; TIdent "const"; TIdent _] => true
+  | _ => false
+  end.
+
+Definition is_from_raw_parts (p : rpath) : bool :=
+  match p with
+  | RCore ["slice"; "from_raw_parts"] => true
+  | _ => false
+  end.
+
+(** `::core::slice::from_raw_parts(ptr as *const u8, n)`: the first [n] bytes of the object
+    [ptr] points to; reading past the object is undefined behaviour (stuck).  A raw pointer
+    is modelled as a reference to the same place. *)
+Definition from_raw_parts (st : store) (ptr len : value) : res :=
+  match ptr, len with
+  | VRef p, VUsize n =>
+      match load st p with
+      | Some (VBytes l) => if Nat.leb n (List.length l) then RVal (VRefTmp (VBytes (firstn n l)))
+                           else RStuck
+      | _ => RStuck
+      end
+  | _, _ => RStuck
+  end.
+
 (** ** calls into ::core and into user code *)
 Section Calls.
   Variable I : interp.
@@ -248,6 +290,7 @@ Section Calls.
         end
     | ["cmp"; "PartialEq"; "eq"], [a; b] =>
         match strip2 (st_store s) a b with
+        | Some (VBytes x, VBytes y) => (RVal (VBool (bytes_eqb x y)), s)   (* C20: <[u8] as PartialEq>::eq *)
         | Some (x, y) => (RVal (VBool (i_eq I x y)), s)
         | None => (RStuck, s)
         end
@@ -268,6 +311,36 @@ Section Calls.
         | None => (RStuck, s)
         end
     | ["option"; "Option"; "Some"], [a] => (RVal (VOpt (Some a)), s)
+    | ["clone"; "Clone"; "clone"], [a] =>
+        match strip (st_store s) a with
+        | Some x => (RVal (i_clone I x), log (EvClone x) s)
+        | None => (RStuck, s)
+        end
+    | ["clone"; "Clone"; "clone_from"], [a; b] =>
+        (* the destination is a unique reference to a place; its content is replaced *)
+        match a with
+        | VRef p =>
+            match load (st_store s) p, strip (st_store s) b with
+            | Some d, Some y =>
+                match store_set (st_store s) p (i_clone_from I d y) with
+                | Some st' => (RVal VUnit, log (EvCloneFrom d y)
+                                               {| st_store := st'; st_trace := st_trace s |})
+                | None => (RStuck, s)
+                end
+            | _, _ => (RStuck, s)
+            end
+        | _ => (RStuck, s)
+        end
+    | ["convert"; "Into"; "into"], [a] => (RVal (i_into I a), s)
+    | _, _ => (RStuck, s)
+    end.
+
+  (** `<ty as Trait>::name(args)` *)
+  Definition apply_qpath (ty : toks) (tr : rpath) (name : string) (args : list value) (s : state)
+    : res * state :=
+    match tr, args with
+    | RCore ["default"; "Default"], [] =>
+        if String.eqb name "default" then (RVal (i_default I ty), s) else (RStuck, s)
     | _, _ => (RStuck, s)
     end.
 
@@ -468,6 +541,15 @@ Section Calls.
             | (Some vs, _, s1) => apply_path p vs s1
             | (None, x, s1) => (x, s1)
             end
+        | EQPath ty tr name =>
+            match eval_args eval en args s with
+            | (Some vs, _, s1) => apply_qpath ty tr name vs s1
+            | (None, x, s1) => (x, s1)
+            end
+        | EToks ts =>
+            (* C20: `::core::mem::size_of::<Self>()` *)
+            if flat_eqb ts size_of_self_toks && is_nil args
+            then (RVal (VUsize (i_size_of_self I)), s) else (RStuck, s)
         | _ => (RStuck, s)
         end
     | EMethod recv m args =>
@@ -559,8 +641,32 @@ Section Calls.
         | other => other
         end
     | EBlock b => eval_block eval en b s
-    | EUnsafe b => eval_block eval en b s
-    | ECast _ _ => (RStuck, s)
+    | EUnsafe b =>
+        match b with
+        | [ECall (EPath p) [pe; ne]] =>
+            (* C20: `unsafe { ::core::slice::from_raw_parts(ptr, len) }` -- an unsafe fn, given a
+               meaning only directly inside an `unsafe` block (elsewhere it stays stuck in call_core) *)
+            if is_from_raw_parts p then
+              match eval en pe s with
+              | (RVal pv, s1) =>
+                  match eval en ne s1 with
+                  | (RVal nv, s2) => (from_raw_parts (st_store s2) pv nv, s2)
+                  | other => other
+                  end
+              | other => other
+              end
+            else eval_block eval en b s
+        | _ => eval_block eval en b s
+        end
+    | ECast e1 ty =>
+        (* C20: `r as *const T`, `p as *const U`: a pointer to the same place *)
+        if is_const_ptr_ty ty then
+          match eval en e1 s with
+          | (RVal (VRef p), s1) => (RVal (VRef p), s1)
+          | (RVal _, s1) => (RStuck, s1)
+          | other => other
+          end
+        else (RStuck, s)
     | EAssign l r =>
         match eval en r s with
         | (RVal v, s1) =>
